@@ -194,5 +194,5 @@ func c17Run(maxPat, maxSub int) {
 	vfAssert(got == want, "glob-result")
 }
 
-func VF_C17_match_quick()    { c17Run(3, 2) }
+func VF_C17_match_quick()    { c17Run(4, 2) }
 func VF_C17_match_thorough() { c17Run(5, 3) }
